@@ -89,6 +89,10 @@ fn json_cases(rng: &mut Rng, tree: &HNode, out: &mut Vec<Case>) {
         5 => push("prob-is-string", replace_nth(t, "\"prob\": ", "\"prob\": \"0.5\", \"was\": ", k), Expect::Reject(perr)),
         6 => push("player_one-is-number", replace_nth(t, "\"player_one\": true", "\"player_one\": 1", k).or_else(|| replace_nth(t, "\"player_one\": false", "\"player_one\": 0", k)), Expect::Reject(perr)),
         7 => push("terminal-is-string", replace_nth(t, "{\"terminal\": ", "{\"terminal\": \"1\", \"was\": ", k), Expect::Reject(perr)),
+        8 if rng.chance(0.3) && t.contains("\"prob\": ") => {
+            // every weight of every chance node negative: ratios still look like distributions
+            push("all-probs-negative", Some(t.replace("\"prob\": ", "\"prob\": -")), Expect::Reject(vec![GAME_ERR]));
+        }
         8 => {
             let bad = *rng.pick(&["0", "-1", "-0.0", "0.0"]);
             push("prob-not-positive", replace_nth(t, "\"prob\": ", &format!("\"prob\": {}, \"was\": ", bad), k), Expect::Reject(vec![GAME_ERR]));
@@ -399,7 +403,7 @@ pub fn run(ctx: &mut Ctx) {
         }
     });
     ctx.finish(crate::report::extra(
-        "cases = corrupted inputs to the shipped binary, each derived from a valid generated file, under --input-format {json,gambit,auto}, via -i file (extensions .json/.efg/.txt) or stdin, to stdout or -o file. JSON: truncation, trailing data after a complete game (stray bracket, second document, comment), dropped/renamed required fields, wrong types, prob in {0,-1,-0.0}, overflowing payoff literal, garbage/empty input, wrong format selected, C11 contract violations (empty chance/player, renamed action at one node, added/dropped action, forgotten own action, relabelling across branches) written in the DSL; extra unknown fields are don't-care. Gambit: truncation at a token boundary, 1 or 3 players, wrong header, dropped action list, terminal without payoffs, chance list not summing to 1, zero/negative chance probability summing to 1, non-finite payoffs (1e999), unnamed infoset whose number is another infoset's explicit name (same player), two infoset numbers of one player with the same explicit name, one payoff perturbed by {0.5,1.01,2,100} x the documented 0.1% constant-sum tolerance (0.5x must be ACCEPTED), an interior-node outcome with a non-zero pair sum (stated in place or attached by outcome number only, payoffs stated elsewhere) that the terminals below it do not compensate, duplicate action inside a node, imperfect recall, wrong format selected, garbage. Required for invalid input: non-zero exit status that is not a signal, no result object on stdout or in the -o file, and a diagnostic containing a documented category (#json-error, #gambit-error, #auto-error, #game-error, #duplicate-infosets, #constant-sum, 'players', 'non-finite'); a documented category other than the expected one is counted, not failed. distinct = hash(input text, corruption); non-trivial = every case.",
+        "cases = corrupted inputs to the shipped binary, each derived from a valid generated file, under --input-format {json,gambit,auto}, via -i file (extensions .json/.efg/.txt) or stdin, to stdout or -o file. JSON: truncation, trailing data after a complete game (stray bracket, second document, comment), dropped/renamed required fields, wrong types, prob in {0,-1,-0.0}, all weights negative, overflowing payoff literal, garbage/empty input, wrong format selected, C11 contract violations (empty chance/player, renamed action at one node, added/dropped action, forgotten own action, relabelling across branches) written in the DSL; extra unknown fields are don't-care. Gambit: truncation at a token boundary, 1 or 3 players, wrong header, dropped action list, terminal without payoffs, chance list not summing to 1, zero/negative chance probability summing to 1, non-finite payoffs (1e999), unnamed infoset whose number is another infoset's explicit name (same player), two infoset numbers of one player with the same explicit name, one payoff perturbed by {0.5,1.01,2,100} x the documented 0.1% constant-sum tolerance (0.5x must be ACCEPTED), an interior-node outcome with a non-zero pair sum (stated in place or attached by outcome number only, payoffs stated elsewhere) that the terminals below it do not compensate, duplicate action inside a node, imperfect recall, wrong format selected, garbage. Required for invalid input: non-zero exit status that is not a signal, no result object on stdout or in the -o file, and a diagnostic containing a documented category (#json-error, #gambit-error, #auto-error, #game-error, #duplicate-infosets, #constant-sum, 'players', 'non-finite'); a documented category other than the expected one is counted, not failed. distinct = hash(input text, corruption); non-trivial = every case.",
         &["validity of each corrupted input is known by construction (the harness knows what it broke); unknown extra JSON fields and duplicate JSON keys are don't-care"],
     ));
 }
